@@ -470,7 +470,7 @@ class TopLevelVisitor(ast.NodeVisitor):
 
         trips = ("'''", '"""')
         for trip in trips:
-            if startline.strip().startswith((trip, 'r' + trip)):
+            if startline.strip().lower().startswith((trip, 'r' + trip, 'u' + trip)):
                 nlines = docstr.count('\n')
                 # assuming that the docstr is actually terminated with this
                 # kind of triple quote, then the end line is at this position
@@ -637,7 +637,7 @@ class TopLevelVisitor(ast.NodeVisitor):
 
                 # The startline should also begin with the same triple quote
                 # Account for raw strings. Note f-strings cannot be docstrings
-                if startline.strip().startswith((trip, 'r' + trip)):
+                if startline.strip().lower().startswith((trip, 'r' + trip, 'u' + trip)):
                     # Both conditions pass.
                     start = cand_start_
                     break
